@@ -83,6 +83,10 @@ def regression():
         Item("E", [Variant("Red", "unit"), Variant("Other", "tuple", [Field("String")], [DISABLED, DEFAULT]), Variant("Blue", "unit")]),
         Item("E", [Variant("Other", "named", [Field("String", "rest")], [DEFAULT, ser("o"), DISABLED]), Variant("Red", "unit")],
              metas=[EM("pety", "PErr"), EM("pefn", "perr_a")]),
+        # several spellings of ONE variant that differ only in ASCII case, under every flag value
+        Item("E", [Variant("A", "unit", [], [ser("mb"), tos("MB"), aci(False)]), Variant("B", "unit", [], [ser("kb"), ser("Kb"), ser("KB")]),
+                   Variant("C", "unit", [], [ser("gb"), tos("GB"), aci(True, explicit=True)]), Variant("D", "unit", [], [tos("Tb"), ser("tB")])]),
+        Item("E", [Variant("A", "unit", [], [ser("mb"), tos("MB"), aci(False)]), Variant("B", "unit", [], [ser("kb"), ser("KB")])], metas=[EM("aci")]),
         Item("E", [Variant("Off", "tuple", [Field("String")], [DEFAULT, DISABLED]), Variant("Real", "tuple", [Field("String")], [DEFAULT]), Variant("Red", "unit")]),
     ]
 
